@@ -1720,11 +1720,12 @@ fn unary_case(args: &[&str]) -> Res {
     use dashu_base::{DivRem, PowerOfTwo, SquareRootRem};
     let bad = || Err("bad-op mem.arith".to_string());
     let (op, form) = (args[0], args[1]);
-    let signed = matches!(op, "idivrem" | "ishl" | "ishr" | "ipow");
+    let signed = matches!(op, "idivrem" | "ishl" | "ishr" | "ipow" | "inot");
     let ok_hex = |s: &str| hex_to_words(s.strip_prefix('-').unwrap_or(s)).is_some();
     let form_ok = match op {
         "idivrem" => matches!(form, "rr" | "rv" | "vr" | "vv"),
         "ishl" | "ishr" => matches!(form, "v" | "r" | "a"),
+        "inot" => matches!(form, "v" | "r"),
         "ipow" | "sqrtrem" | "sqrt" => form == "r",
         _ => form == "v",
     };
@@ -1823,6 +1824,16 @@ fn unary_case(args: &[&str]) -> Res {
             let x = a.as_ref().unwrap();
             guarded(|| x.pow(n)).map(Out::I)
         }
+        "inot" => {
+            // `!IBig` by value / `!&IBig`
+            if form == "v" {
+                let x = a.take().unwrap();
+                guarded(move || !x).map(Out::I)
+            } else {
+                let x = a.as_ref().unwrap();
+                guarded(|| !x).map(Out::I)
+            }
+        }
         _ => {
             // by-value bit methods of UBig (`&mut self` methods are `mem::take(self)` + the by-value TypedRepr method)
             let x: UBig = match a.take().unwrap().try_into() {
@@ -1894,12 +1905,15 @@ fn unary_case(args: &[&str]) -> Res {
 }
 
 /// `mem.arith divrem <form> <a> <b>`: one `DivRem::div_rem` call on `UBig` operands in one ownership form; both
-/// results (quotient `&` remainder) with their layout, the allocator events of the call, then the drops
+/// results (quotient `&` remainder) with their layout, the allocator events of the call, then the drops.
+/// Also `divremeuc` (`DivRemEuclid::div_rem_euclid`), `diveuc` / `remeuc` (`DivEuclid` / `RemEuclid`: one result) and
+/// `divremassign` (`DivRemAssign::div_rem_assign`, forms `av` / `ar`: the quotient replaces the lhs, the remainder is returned)
 fn divrem_case(args: &[&str]) -> Res {
-    use dashu_base::DivRem;
+    use dashu_base::{DivEuclid, DivRem, DivRemAssign, DivRemEuclid, RemEuclid};
     let bad = || Err("bad-op mem.arith".to_string());
-    let form = args[1];
-    if !matches!(form, "rr" | "rv" | "vr" | "vv") || hex_to_words(args[2]).is_none() || hex_to_words(args[3]).is_none() {
+    let (op, form) = (args[0], args[1]);
+    let form_ok = if op == "divremassign" { matches!(form, "av" | "ar") } else { matches!(form, "rr" | "rv" | "vr" | "vv") };
+    if !form_ok || hex_to_words(args[2]).is_none() || hex_to_words(args[3]).is_none() {
         return bad();
     }
     hist_begin(true);
@@ -1913,34 +1927,58 @@ fn divrem_case(args: &[&str]) -> Res {
         }
     };
     let (mut a, mut b) = (Some(a), Some(b));
-    let res: Result<(UBig, UBig), (String, String)> = match form {
-        "rr" => {
-            let (x, y) = (a.as_ref().unwrap(), b.as_ref().unwrap());
-            guarded(|| x.div_rem(y))
-        }
-        "rv" => {
-            let x = a.as_ref().unwrap();
-            let y = b.take().unwrap();
-            guarded(move || x.div_rem(y))
-        }
-        "vr" => {
-            let x = a.take().unwrap();
-            let y = b.as_ref().unwrap();
-            guarded(move || x.div_rem(y))
-        }
+    macro_rules! forms {
+        ($m:ident) => {
+            match form {
+                "rr" => {
+                    let (x, y) = (a.as_ref().unwrap(), b.as_ref().unwrap());
+                    guarded(|| x.$m(y))
+                }
+                "rv" => {
+                    let x = a.as_ref().unwrap();
+                    let y = b.take().unwrap();
+                    guarded(move || x.$m(y))
+                }
+                "vr" => {
+                    let x = a.take().unwrap();
+                    let y = b.as_ref().unwrap();
+                    guarded(move || x.$m(y))
+                }
+                _ => {
+                    let x = a.take().unwrap();
+                    let y = b.take().unwrap();
+                    guarded(move || x.$m(y))
+                }
+            }
+        };
+    }
+    // one result is printed as a pair with an absent second component
+    let res: Result<(UBig, Option<UBig>), (String, String)> = match op {
+        "divrem" => forms!(div_rem).map(|(q, r)| (q, Some(r))),
+        "divremeuc" => forms!(div_rem_euclid).map(|(q, r)| (q, Some(r))),
+        "diveuc" => forms!(div_euclid).map(|q| (q, None)),
+        "remeuc" => forms!(rem_euclid).map(|r| (r, None)),
         _ => {
-            let x = a.take().unwrap();
-            let y = b.take().unwrap();
-            guarded(move || x.div_rem(y))
+            let mut x = a.take().unwrap();
+            if form == "av" {
+                let y = b.take().unwrap();
+                guarded(move || {
+                    let r = x.div_rem_assign(y);
+                    (x, Some(r))
+                })
+            } else {
+                let y = b.as_ref().unwrap();
+                guarded(move || {
+                    let r = x.div_rem_assign(y);
+                    (x, Some(r))
+                })
+            }
         }
     };
     let ev = drain_events();
     let head = match &res {
-        Ok((q, r)) => {
-            let (qc, ql) = ubig_repr_info(q);
-            let (rc, rl) = ubig_repr_info(r);
-            format!("r{}/{}/{}&r{}/{}/{}", qc, ql, ws_str(q.as_words()), rc, rl, ws_str(r.as_words()))
-        }
+        Ok((q, Some(r))) => format!("{}&{}", head_ubig(q), head_ubig(r)),
+        Ok((q, None)) => head_ubig(q),
         Err((msg, loc)) => format!("!{}", classify_panic(msg, loc)),
     };
     let _ = guarded(move || {
@@ -1954,16 +1992,17 @@ fn divrem_case(args: &[&str]) -> Res {
     Ok(format!("{}|{} end:{}:live={}:dfree={}", head, ev, drops, live, dfree))
 }
 
-/// `mem.arith gcd|gcdext <form> <a> <b>` (UBig operands), `mem.arith igcd <form> <a> <b>` (signed hex operands): one
-/// `Gcd::gcd` / `ExtendedGcd::gcd_ext` call in one ownership form; the result(s) with their layout joined by `&`, the
-/// allocator events of the call, then the drops
+/// `mem.arith gcd|gcdext <form> <a> <b>` (UBig operands), `igcd|igcdext` (IBig operands), `gcd_ui|gcdext_ui` (UBig lhs, IBig rhs),
+/// `gcd_iu|gcdext_iu` (IBig lhs, UBig rhs): one `Gcd::gcd` / `ExtendedGcd::gcd_ext` call in one ownership form; the result(s) with
+/// their layout joined by `&`, the allocator events of the call, then the drops
 fn gcd_case(args: &[&str]) -> Res {
     use dashu_base::ExtendedGcd;
     let bad = || Err("bad-op mem.arith".to_string());
     let (op, form) = (args[0], args[1]);
-    let signed = op == "igcd";
-    let ok_hex = |s: &str| if signed { hex_to_words(s.strip_prefix('-').unwrap_or(s)).is_some() } else { hex_to_words(s).is_some() };
-    if !matches!(form, "rr" | "rv" | "vr" | "vv") || !ok_hex(args[2]) || !ok_hex(args[3]) {
+    let a_i = matches!(op, "igcd" | "igcdext" | "gcd_iu" | "gcdext_iu");
+    let b_i = matches!(op, "igcd" | "igcdext" | "gcd_ui" | "gcdext_ui");
+    let ok_hex = |s: &str, signed: bool| if signed { hex_to_words(s.strip_prefix('-').unwrap_or(s)).is_some() } else { hex_to_words(s).is_some() };
+    if !matches!(form, "rr" | "rv" | "vr" | "vv") || !ok_hex(args[2], a_i) || !ok_hex(args[3], b_i) {
         return bad();
     }
     hist_begin(true);
@@ -2009,20 +2048,28 @@ fn gcd_case(args: &[&str]) -> Res {
     let mut ib: Option<IBig> = None;
     let mut ua: Option<UBig> = None;
     let mut ub: Option<UBig> = None;
-    let res: Result<Out, (String, String)> = if signed {
+    // the conversion IBig -> UBig moves the representation (no allocator event)
+    if a_i {
         ia = Some(a);
-        ib = Some(b);
-        forms!(ia, ib, gcd).map(Out::G)
     } else {
-        // the conversion moves the representation (no allocator event)
         ua = Some(a.try_into().unwrap());
+    }
+    if b_i {
+        ib = Some(b);
+    } else {
         ub = Some(b.try_into().unwrap());
-        clear_log();
-        if op == "gcd" {
-            forms!(ua, ub, gcd).map(Out::G)
-        } else {
-            forms!(ua, ub, gcd_ext).map(|(g, s, t)| Out::X(g, s, t))
-        }
+    }
+    clear_log();
+    let x3 = |(g, s, t): (UBig, IBig, IBig)| Out::X(g, s, t);
+    let res: Result<Out, (String, String)> = match op {
+        "gcd" => forms!(ua, ub, gcd).map(Out::G),
+        "igcd" => forms!(ia, ib, gcd).map(Out::G),
+        "gcd_ui" => forms!(ua, ib, gcd).map(Out::G),
+        "gcd_iu" => forms!(ia, ub, gcd).map(Out::G),
+        "gcdext" => forms!(ua, ub, gcd_ext).map(x3),
+        "igcdext" => forms!(ia, ib, gcd_ext).map(x3),
+        "gcdext_ui" => forms!(ua, ib, gcd_ext).map(x3),
+        _ => forms!(ia, ub, gcd_ext).map(x3),
     };
     let ev = drain_events();
     let head = match &res {
@@ -2105,16 +2152,16 @@ pub fn arith_case(args: &[&str]) -> Res {
     if matches!(op, "iadd" | "isub" | "imul" | "idiv" | "irem" | "iand" | "ior" | "ixor") {
         return signed_case(args);
     }
-    if op == "divrem" {
+    if matches!(op, "divrem" | "divremeuc" | "diveuc" | "remeuc" | "divremassign") {
         return divrem_case(args);
     }
-    if matches!(op, "idivrem" | "ishl" | "ishr" | "ipow" | "setbit" | "clearbit" | "clearhigh" | "splitbits" | "nextpow2" | "sqrtrem" | "sqrt") {
+    if matches!(op, "inot" | "idivrem" | "ishl" | "ishr" | "ipow" | "setbit" | "clearbit" | "clearhigh" | "splitbits" | "nextpow2" | "sqrtrem" | "sqrt") {
         return unary_case(args);
     }
     if op == "pow" {
         return pow_case(args);
     }
-    if matches!(op, "gcd" | "igcd" | "gcdext") {
+    if matches!(op, "gcd" | "igcd" | "gcdext" | "igcdext" | "gcd_ui" | "gcd_iu" | "gcdext_ui" | "gcdext_iu") {
         return gcd_case(args);
     }
     if op == "sqr" {
